@@ -12,7 +12,9 @@ import sys
 import time
 
 PY = "/venv/bin/python"
-VERIF = os.path.dirname(os.path.dirname(os.path.abspath(__file__)))
+# VERIF_ROOT: run the checks from a frozen copy of /verif (dst/, corpus/, known_findings.txt) so that editing /verif
+# while a long batch runs cannot disturb it
+VERIF = os.environ.get("VERIF_ROOT") or os.path.dirname(os.path.dirname(os.path.abspath(__file__)))
 
 
 def sh(cmd, cwd=None, env=None, timeout=3600):
